@@ -1,9 +1,12 @@
 (* C07: torchsnapshot/manifest_ops.py  (get_manifest_for_rank, _get_manifest_for_existing_rank,
    _get_manifest_for_new_rank, _get_rank_to_manifest, _get_merged_sharded_tensor_entries, _remove_entry,
    handle_sharded_tensor_elasticity).  Executable definitions only.  The model follows the code as it stands after
-   the fix commit 489d382 (_remove_entry removes the key whose str() equals the unquoted last path component);
-   the code before that commit is kept as [remove_key_legacy] / [manifest_for_new_rank_legacy] for the _refuted
-   theorem.
+   the fix commits
+     489d382  _remove_entry removes the key whose str() equals the unquoted last path component, and
+     bb9e810  handle_sharded_tensor_elasticity appends the unquoted component to a dict parent's keys and leaves
+              list parents alone;
+   the code before them is kept as [remove_key_legacy] / [manifest_for_new_rank_legacy] and [elasticity_legacy]
+   for the _refuted theorems.
 
    Representation.
    * A logical path is the list of its "/"-separated components ([Flatten.path]); the code's string operations
@@ -234,9 +237,12 @@ Definition norm_path (q : path) : path := match q with [] => [[]] | _ => q end.
 
 (* if logical_path not in manifest:
        manifest[logical_path] = merged_sd_entries[logical_path]
-       manifest["/".join(tokens)].keys.append(key)          key = the raw last component, a str
-   KeyError when the parent is absent, AttributeError when it has no .keys (ListEntry, a leaf) *)
-Definition elastic_add (W : Z) (g : gman) (cur : option man) (p : path) : option man :=
+       parent = manifest["/".join(tokens)]                  KeyError when the parent is absent
+       if is_dict_entry(parent): parent.keys.append(unquote(key))        (a str; list parents are left alone)
+   [legacy = true] is the code before commit bb9e810:
+       manifest["/".join(tokens)].keys.append(key)          the raw, still encoded component;
+                                                            AttributeError when the parent has no .keys *)
+Definition elastic_add_with (legacy : bool) (W : Z) (g : gman) (cur : option man) (p : path) : option man :=
   match cur with
   | None => None
   | Some m =>
@@ -246,27 +252,40 @@ Definition elastic_add (W : Z) (g : gman) (cur : option man) (p : path) : option
           let m1 := mset m p (MShard (merged_shards W g p)) in
           let parent := norm_path (removelast p) in
           match mget m1 parent with
-          | Some (MCont (EDict ord ks)) => Some (mset m1 parent (MCont (EDict ord (ks ++ [KStr (last p [])]))))
-          | _ => None
+          | None => None
+          | Some (MCont (EDict ord ks)) =>
+              let k := KStr (if legacy then last p [] else decode (last p [])) in
+              Some (mset m1 parent (MCont (EDict ord (ks ++ [k]))))
+          | Some _ => if legacy then None else Some m1
           end
       end
   end.
 
-Definition elasticity (W : Z) (g : gman) (m : man) (reqs : list path) : option man :=
+Definition elasticity_with (legacy : bool) (W : Z) (g : gman) (m : man) (reqs : list path) : option man :=
   (* tensor_requests = [tr for tr in tensor_requests if tr in merged_sd_entries] *)
   let reqs' := filter (merged_has W g) reqs in
-  match fold_left (elastic_add W g) reqs' (Some m) with
+  match fold_left (elastic_add_with legacy W g) reqs' (Some m) with
   | None => None
   | Some m' =>
       (* del manifest[p] for sharded entries that are not requested (the parent's keys are left alone) *)
       Some (filter (fun pe => negb (is_sharded (snd pe) && negb (path_memb (fst pe) reqs'))) m')
   end.
 
+Definition elastic_add := elastic_add_with false.
+Definition elasticity := elasticity_with false.
+Definition elasticity_legacy := elasticity_with true.
+
 (* what _load_stateful hands to inflate: get_manifest_for_rank followed by handle_sharded_tensor_elasticity *)
 Definition load_view (W : Z) (g : gman) (r : Z) (reqs : list path) : option man :=
   match get_manifest_for_rank W g r with
   | None => None
   | Some m => elasticity W g m reqs
+  end.
+
+Definition load_view_legacy (W : Z) (g : gman) (r : Z) (reqs : list path) : option man :=
+  match get_manifest_for_rank W g r with
+  | None => None
+  | Some m => elasticity_legacy W g m reqs
   end.
 
 (* ------------------------------------------------------------------ well-formedness of a gathered manifest *)
@@ -345,5 +364,8 @@ Definition obs_load_view (x : Z * gman * Z * list path) : val :=
 (* the code before commit 489d382 (used by the replay of the _refuted witness) *)
 Definition obs_get_manifest_legacy (x : Z * gman * Z) : val :=
   let '(W, g, r) := x in vopt obs_man (get_manifest_for_rank_legacy W g r).
+
+Definition obs_load_view_legacy (x : Z * gman * Z * list path) : val :=
+  let '(W, g, r, reqs) := x in vopt obs_man (load_view_legacy W g r reqs).
 
 Definition obs_wf (x : Z * gman) : val := vbool (wf_globalb (fst x) (snd x)).
